@@ -1,4 +1,4 @@
-P('C04', shards=16, fuzz=[('FuzzDispatch', 45)],
+P('C04', shards=16, fuzz=[('FuzzDispatch', 90)],
   technique='property-based differential testing against a reference router (candidate-set filtering over the flat route list) + exhaustive small-scope enumeration of tables x paths + native fuzzing',
   text='Generated route tables (literals, :params, *, repeated/trailing slashes, all methods) are registered on the real Mux; every generated request (arbitrary path strings incl. "", "*", // runs, '
        'trailing slashes, :x and * segments, unknown/empty methods) must invoke exactly one handler, never panic, and select the route and bindings of an independent reference router written from the '
